@@ -10,7 +10,15 @@ package api
 import (
 	"encoding/json"
 	"fmt"
+	"net/url"
+	"sort"
+	"strings"
 	"testing"
+	"time"
+
+	cid "github.com/ipfs/go-cid"
+	peer "github.com/libp2p/go-libp2p-core/peer"
+	multiaddr "github.com/multiformats/go-multiaddr"
 
 	pb "github.com/ipfs/ipfs-cluster/api/pb"
 
@@ -44,6 +52,9 @@ type vc08Case struct {
 	Kind string      `json:"kind"`
 	Pin  *vc08PinIn  `json:"pin,omitempty"`
 	Msg  *vc08MsgIn  `json:"msg,omitempty"`
+	Opts *vc08OptsIn `json:"opts,omitempty"` // kind q: options through ToQuery / FromQuery
+	Raw  [][][]byte  `json:"raw,omitempty"`  // kind qraw: [key, value] pairs of an arbitrary query
+	Old  *vc08OptsIn `json:"old,omitempty"`  // kind qraw: receiver value FromQuery decodes onto
 }
 
 // which universe a token's valid values come from
@@ -229,14 +240,319 @@ func vc08RunPbMsg(out *vOut, c vc08Case) {
 	out.add(fmt.Sprintf("CPbMsg %s %s %s %s", old, term, obs, obs2), c, []string{obs, obs2}, true)
 }
 
+
+// ---------------------------------------------------------------- query form
+// outcomes of the trusted parsers on the texts of one case
+type vc08Oracle struct {
+	noncanon    bool // a parser accepted a text that is not the printer's output for the value (the model identifies a value with its canonical text)
+	peers, cids []string
+	addrs       map[string]bool
+	times       map[string]time.Time
+	durs        map[string]time.Duration
+}
+
+func vc08NewOracle() *vc08Oracle {
+	return &vc08Oracle{addrs: map[string]bool{}, times: map[string]time.Time{}, durs: map[string]time.Duration{}}
+}
+
+func (o *vc08Oracle) askPeer(s string) {
+	if p, err := peer.Decode(s); err == nil {
+		o.peers = append(o.peers, s)
+		o.noncanon = o.noncanon || peer.Encode(p) != s
+	}
+}
+func (o *vc08Oracle) askCid(s string) {
+	if c, err := cid.Decode(s); err == nil {
+		o.cids = append(o.cids, s)
+		o.noncanon = o.noncanon || c.String() != s
+	}
+}
+func (o *vc08Oracle) askAddr(s string) {
+	if m, err := multiaddr.NewMultiaddr(s); err == nil {
+		_, e2 := m.ValueForProtocol(multiaddr.P_P2P)
+		o.addrs[s] = e2 == nil
+		o.noncanon = o.noncanon || m.String() != s
+	}
+}
+func (o *vc08Oracle) askTime(s string) {
+	var tm time.Time
+	if err := tm.UnmarshalText([]byte(s)); err == nil {
+		o.times[s] = tm
+	}
+}
+func (o *vc08Oracle) askDur(s string) {
+	if d, err := time.ParseDuration(s); err == nil {
+		o.durs[s] = d
+	}
+}
+
+// the texts ToQuery would produce for this value
+func (o *vc08Oracle) askOpts(po *PinOptions) {
+	for _, s := range PeersToStrings(po.UserAllocations) {
+		o.askPeer(s)
+	}
+	if po.PinUpdate.Defined() {
+		o.askCid(po.PinUpdate.String())
+	}
+	for _, a := range po.Origins {
+		o.askAddr(a.String())
+	}
+	if !po.ExpireAt.IsZero() {
+		if b, err := po.ExpireAt.MarshalText(); err == nil {
+			o.askTime(string(b))
+		}
+	}
+}
+
+func vc08Instant(t time.Time) string { return fmt.Sprintf("(%s, %d)", vc08Z(t.Unix()), t.Nanosecond()) }
+
+func (o *vc08Oracle) term() string {
+	uniq := func(xs []string) []string {
+		sort.Strings(xs)
+		out := []string{}
+		for i, x := range xs {
+			if i == 0 || xs[i-1] != x {
+				out = append(out, vc08Str(x))
+			}
+		}
+		return out
+	}
+	var as, ts, ds []string
+	for _, k := range vc08SortedKeys(len(o.addrs), func(f func(string)) {
+		for k := range o.addrs {
+			f(k)
+		}
+	}) {
+		as = append(as, fmt.Sprintf("(%s, %s)", vc08Str(k), cqBool(o.addrs[k])))
+	}
+	for _, k := range vc08SortedKeys(len(o.times), func(f func(string)) {
+		for k := range o.times {
+			f(k)
+		}
+	}) {
+		ts = append(ts, fmt.Sprintf("(%s, %s)", vc08Str(k), vc08Instant(o.times[k])))
+	}
+	for _, k := range vc08SortedKeys(len(o.durs), func(f func(string)) {
+		for k := range o.durs {
+			f(k)
+		}
+	}) {
+		ds = append(ds, fmt.Sprintf("(%s, %s)", vc08Str(k), vc08Z(int64(o.durs[k]))))
+	}
+	return fmt.Sprintf("(mk_orc %s %s %s %s %s)", cqList(uniq(o.peers)), cqList(uniq(o.cids)), cqList(as), cqList(ts), cqList(ds))
+}
+
+func vc08SortedKeys(n int, each func(func(string))) []string {
+	out := make([]string, 0, n)
+	each(func(k string) { out = append(out, k) })
+	sort.Strings(out)
+	return out
+}
+
+// ToQuery, the wire (Encode / ParseQuery), FromQuery into a fresh value
+func vc08QCycle(po *PinOptions) string {
+	qs, err := po.ToQuery()
+	if err != nil {
+		return "ObsQEncErr"
+	}
+	vals, err := url.ParseQuery(qs)
+	if err != nil {
+		return "ObsQDecErr"
+	}
+	var back PinOptions
+	if err := back.FromQuery(vals); err != nil {
+		return "ObsQDecErr"
+	}
+	return "(ObsQ " + vc08OptsTerm(&back) + ")"
+}
+
+func vc08RunQ(out *vOut, c vc08Case) {
+	po := c.Opts.build()
+	orc := vc08NewOracle()
+	orc.askOpts(&po)
+	obs := vc08QCycle(&po)
+	out.count("q:" + obs[:6])
+	nt := len(po.Metadata) > 0 || len(po.Origins) > 0 || len(po.UserAllocations) > 0 || !po.ExpireAt.IsZero()
+	out.add(fmt.Sprintf("CQuery %s %s %s", orc.term(), vc08OptsTerm(&po), obs), c, obs, nt)
+}
+
+func vc08RunQRaw(out *vOut, c vc08Case) {
+	vals := url.Values{}
+	for _, kv := range c.Raw {
+		if len(kv) >= 2 {
+			vals.Set(string(kv[0]), string(kv[1]))
+		}
+	}
+	orc := vc08NewOracle()
+	for _, s := range strings.Split(vals.Get("user-allocations"), ",") {
+		orc.askPeer(s)
+	}
+	for _, s := range strings.Split(vals.Get("origins"), ",") {
+		orc.askAddr(s)
+	}
+	orc.askCid(vals.Get("pin-update"))
+	orc.askTime(vals.Get("expire-at"))
+	orc.askDur(vals.Get("expire-in"))
+	keys := vc08SortedKeys(len(vals), func(f func(string)) {
+		for k := range vals {
+			f(k)
+		}
+	})
+	qt := make([]string, len(keys))
+	for i, k := range keys {
+		qt[i] = "(" + vc08Str(k) + ", " + vc08Str(vals.Get(k)) + ")"
+	}
+	if orc.noncanon {
+		out.count("qraw:skipped-noncanonical-text")
+		return
+	}
+	var po PinOptions
+	old := "zero_opts"
+	if c.Old != nil {
+		po = c.Old.build()
+		old = vc08OptsTerm(&po)
+	}
+	// wire form, as the REST layer receives it
+	wire, err := url.ParseQuery(vals.Encode())
+	if err != nil {
+		panic(err)
+	}
+	t0 := time.Now()
+	err = po.FromQuery(wire)
+	t1 := time.Now()
+	obs, obs2 := "ObsQDecErr", "ObsQDecErr"
+	if err == nil {
+		// expire-in: the clock reading the code took lies between t0 and t1; report it as t0
+		if d, ok := orc.durs[vals.Get("expire-in")]; ok && vals.Get("expire-at") == "" {
+			taken := po.ExpireAt.Add(-d)
+			if !taken.Before(t0) && !taken.After(t1) {
+				po.ExpireAt = t0.Add(d)
+			}
+		}
+		obs = "(ObsQ " + vc08OptsTerm(&po) + ")"
+		orc.askOpts(&po)
+		obs2 = vc08QCycle(&po)
+	}
+	out.count("qraw:" + obs[:6])
+	out.add(fmt.Sprintf("CQRaw %s %s %s %s %s %s", orc.term(), vc08Instant(t0), old, cqList(qt), obs, obs2), c, []string{obs, obs2}, err == nil)
+}
+
+var vc08QInts = []string{"", "0", "1", "-1", "+3", "007", " 5", "5 ", "1e3", "0x10", "9223372036854775807", "9223372036854775808",
+	"-9223372036854775808", "-9223372036854775809", "--1", "+", "-", "1_000", "٣", "12a", "2", "3", "-2", "18446744073709551615", "18446744073709551616", "-0"}
+var vc08QModes = []string{"recursive", "direct", "", "Direct", "junk", "recursive "}
+var vc08QTimes = []string{"2026-01-02T03:04:05Z", "2026-01-02T03:04:05.123456789+02:00", "junk", "1970-01-01T00:00:00Z", "0001-01-01T00:00:00Z",
+	"2026-01-02T03:04:05.12Z", "9999-12-31T23:59:59.999999999Z", "2026-01-02 03:04:05Z", "1969-12-31T23:59:59.5Z", "10000-01-01T00:00:00Z", "0000-01-01T00:00:00Z"}
+var vc08QDurs = []string{"1h", "1s", "999ms", "1.5s", "-1h", "junk", "1000000000ns", "2540400h", "999999999ns", "1h30m", "0", "1"}
+var vc08QMetaKeys = []string{"meta-a", "meta-", "meta-meta-x", "Meta-a", "meta", "meta-a b", "meta-ü", "meta-k=v", "meta-b"}
+var vc08QOther = []string{"junk", "replication-", "local", "shard", "expire", "origin"}
+
+func vc08GenQRaw(r *vRand) vc08Case {
+	c := vc08Case{Kind: "qraw"}
+	add := func(k, v string) { c.Raw = append(c.Raw, [][]byte{[]byte(k), []byte(v)}) }
+	pick := func(xs []string) string { return xs[r.intn(len(xs))] }
+	good := r.chance(55) // mostly-valid queries, so that decoding reaches the later fields
+	intv := func() string {
+		if good {
+			return []string{"0", "1", "-1", "2", "3", "+3", "007"}[r.intn(7)]
+		}
+		return pick(vc08QInts)
+	}
+	if r.chance(60) {
+		add("replication-min", intv())
+	}
+	if r.chance(60) {
+		add("replication-max", intv())
+	}
+	if r.chance(25) {
+		add("replication", intv())
+	}
+	if r.chance(60) {
+		add("name", pick(vc08Strings))
+	}
+	if r.chance(60) {
+		add("mode", pick(vc08QModes))
+	}
+	if r.chance(50) {
+		if good {
+			add("shard-size", []string{"0", "1024", "18446744073709551615", "007"}[r.intn(4)])
+		} else {
+			add("shard-size", pick(vc08QInts))
+		}
+	}
+	list := func(n int, item func() string) string {
+		xs := []string{}
+		for i := 0; i < n; i++ {
+			xs = append(xs, item())
+		}
+		return strings.Join(xs, ",")
+	}
+	if r.chance(50) {
+		add("user-allocations", list(r.rng(0, 4), func() string {
+			if r.chance(12) {
+				return []string{"", "junk", " " + peer.Encode(vc08Peers[0]), "Qm"}[r.intn(4)]
+			}
+			return peer.Encode(vc08Peers[r.intn(len(vc08Peers))])
+		}))
+	}
+	if r.chance(45) {
+		if good {
+			add("expire-at", vc08QTimes[[]int{0, 1, 5, 6, 8}[r.intn(5)]])
+		} else {
+			add("expire-at", pick(vc08QTimes))
+		}
+	}
+	if r.chance(35) {
+		if good {
+			add("expire-in", []string{"1h", "1s", "1.5s", "1h30m", "1000000000ns"}[r.intn(5)])
+		} else {
+			add("expire-in", pick(vc08QDurs))
+		}
+	}
+	for i, n := 0, r.intn(4); i < n; i++ {
+		add(pick(vc08QMetaKeys), pick(vc08Strings))
+	}
+	if r.chance(30) {
+		add(pick(vc08QOther), pick(vc08Strings))
+	}
+	if r.chance(40) {
+		v := vc08Cids[r.intn(len(vc08Cids))].String()
+		if !good && r.chance(30) {
+			v = []string{"junk", v + "x", "Qm", " " + v}[r.intn(4)]
+		}
+		add("pin-update", v)
+	}
+	if r.chance(45) {
+		add("origins", list(r.rng(0, 3), func() string {
+			if !good && r.chance(20) {
+				return []string{"", "junk", "/ip4/1.2.3.4", "/ip4/999.1.1.1/tcp/1"}[r.intn(4)]
+			}
+			i := r.intn(len(vc08Addrs))
+			if good && i == 5 {
+				i = 0
+			}
+			return vc08Addrs[i].String()
+		}))
+	}
+	if r.chance(20) {
+		old := vc08GenOpts(r, false)
+		c.Old = &old
+	}
+	return c
+}
+
 func vc08Gen(r *vRand) vc08Case {
 	switch x := r.intn(100); {
-	case x < 60:
+	case x < 35:
 		p := vc08GenPin(r, r.chance(35))
 		return vc08Case{Kind: "pb", Pin: &p}
-	default:
+	case x < 55:
 		m := vc08GenMsg(r)
 		return vc08Case{Kind: "pbmsg", Msg: &m}
+	case x < 75:
+		o := vc08GenOpts(r, r.chance(30))
+		return vc08Case{Kind: "q", Opts: &o}
+	default:
+		return vc08GenQRaw(r)
 	}
 }
 
@@ -251,6 +567,12 @@ func vc08Run(out *vOut, c vc08Case) {
 			if c.Msg != nil {
 				vc08RunPbMsg(out, c)
 			}
+		case "q":
+			if c.Opts != nil {
+				vc08RunQ(out, c)
+			}
+		case "qraw":
+			vc08RunQRaw(out, c)
 		}
 	})
 }
@@ -259,7 +581,7 @@ func TestVerifC08(t *testing.T) {
 	vc08Init()
 	seed := uint64(vEnvInt("VERIF_SEED", 1))
 	n := vEnvInt("VERIF_N", 300)
-	out := newVOut("C08", "From V Require Import Base.Common Base.C08_Str Model.C08_Codec Model.C08_Check.\nOpen Scope string_scope.\nOpen Scope N_scope.",
+	out := newVOut("C08", vc08Header(),
 		"case", "Definition R := Eval vm_compute in failing cases.\nPrint R.")
 	defer out.close()
 	var cases []vc08Case
